@@ -107,6 +107,8 @@ def replay(ctx, path):
     d = json.load(open(path))
     drv = c06.build(ctx)
     e = d["event"]
+    if e.get("e") == "Fault":
+        return core.replay_fault(ctx, d, drv, "PrintfFloatTrace", path)
     line = "Pd %s %s %s %s" % (fmt(e["fmt"]), "n" if e["ws"] == -9999 else e["ws"], "n" if e["ps"] == -9999 else e["ps"], fmt(e["dbl"]))
     t = ctx.drive(drv, ["R", line], "replay")
     ctx.report(ctx.judge("PrintfFloatTrace", [t]))
